@@ -275,8 +275,10 @@ func runStoreHistory(r *rand.Rand, o storeHistOpts, t *Trace) *Case {
 		})
 	}
 	session := 1
-	var script []int        // forced next operations (values of x)
-	var removeTarget uint32 // the id the next remove takes
+	var script []int             // forced next operations (values of x)
+	var removeTarget uint32      // the id the next remove takes
+	var nextFilter *comet.Filter // the filter of this operation, if it is a search (a probe of what the previous one touched)
+	var probeArmed *comet.Filter // ... armed by the operation before
 	closed := false
 	failedFlushes := 0
 	for step := 0; step < o.nops; step++ {
@@ -292,6 +294,7 @@ func runStoreHistory(r *rand.Rand, o storeHistOpts, t *Trace) *Case {
 		if step < o.big {
 			x = 0
 		}
+		nextFilter, probeArmed = probeArmed, nil
 		if len(script) > 0 { // the follow-up of an update-in-place: remove that id, flush, look
 			x, script = script[0], script[1:]
 		}
@@ -541,8 +544,19 @@ func runStoreHistory(r *rand.Rand, o storeHistOpts, t *Trace) *Case {
 			var gs []*comet.FilterGroup
 			if cfg.hm && r.Intn(4) == 0 {
 				fs = []comet.Filter{rndFilter(r)}
+				if r.Intn(2) == 0 {
+					// ... and the next thing that happens is a search probing what this filter touched
+					pf := probeOf(r, fs[0])
+					probeArmed, script = &pf, append(script, 99)
+				}
 			}
-			if cfg.hm && r.Intn(6) == 0 {
+			if nextFilter != nil && cfg.hm {
+				fs = []comet.Filter{*nextFilter}
+				if r.Intn(2) == 0 {
+					vq, tqs = nil, nil // the filter alone
+				}
+				t.Stat("store.search_probe_after_filter")
+			} else if cfg.hm && r.Intn(6) == 0 {
 				// filter groups, also as the ONLY criterion of the search
 				logic := comet.OR
 				if r.Intn(3) == 0 {
